@@ -143,6 +143,8 @@ class InterpCore(object):
             return
         menv = Env(module=module, label=module.name)
         self.stack.append(menv)
+        initing = self.__dict__.setdefault("_modules_initing", set())
+        initing.add(module.name)
         saved_conds, self.path_conds = self.path_conds, []
         saved_loops = getattr(self, "loop_stack", None)
         if saved_loops is not None:
@@ -162,6 +164,7 @@ class InterpCore(object):
                     self.eval(st.value, menv)
         finally:
             self.stack.pop()
+            initing.discard(module.name)
             self.path_conds = saved_conds
             if saved_loops is not None:
                 self.loop_stack = saved_loops
@@ -220,6 +223,7 @@ class InterpCore(object):
                  "super", "round", "reversed", "open", "bool", "object", "Exception", "ValueError", "KeyError",
                  "NotImplementedError", "ImportError", "StopIteration", "AttributeError", "TypeError", "any", "all",
                  "map", "filter", "repr", "callable", "id", "type", "divmod", "pow", "setattr", "frozenset", "delattr",
+                 "vars", "globals",
                  "staticmethod", "classmethod", "property",
                  "IndexError", "RuntimeError", "LookupError", "ZeroDivisionError", "OverflowError", "ArithmeticError",
                  "AssertionError", "OSError", "IOError", "FloatingPointError", "NameError", "UnicodeError", "BaseException")
